@@ -207,6 +207,10 @@ def class_of(self, t):
 
 def get_attr(self, base, name, fr, node=None):
     k = (base.key, name)
+    at0 = base.single_atom()
+    if at0 is not None and at0.kind == 'sym' and not name.startswith('__') and fr is not None and len(self.frames) == 1 \
+            and len(self.pc) == fr.base_len and not self.loops:
+        self.deref_syms.add(at0.args[0])        # an attribute of it was read unconditionally: from here on it is not None
     if k in self.heap:
         return self.heap[k]
     at = base.single_atom()
@@ -467,6 +471,8 @@ def compare_terms(self, o, left, right):
         return r if o == 'in' else T.mk_not(r)
     if o in ('is', 'is not'):
         la, ra = left.single_atom(), right.single_atom()
+        if ra is not None and ra.kind == 'none' and la is not None and la.kind == 'sym' and la.args[0] in self.deref_syms:
+            return FALSE if o == 'is' else TRUE          # it was dereferenced earlier on this path
         if ra is not None and ra.kind == 'none' and la is not None and la.kind == 'sub' and self.frames:
             # an item of the tuple an opaque package function returns: look at what the function returns
             ba_ = la.args[0].single_atom()
